@@ -153,6 +153,20 @@ pub(super) async fn udp_forward_on(
                     datagram_frame.target_port,
                 );
                 trace!("got new datagram frame: {datagram_frame:?} for {target:?}");
+                // A name may resolve to addresses of both families: prefer one
+                // that the socket bound for this flow can actually send to.
+                let addrs = lookup_host(target).await?.collect::<Vec<_>>();
+                let target = addrs
+                    .iter()
+                    .find(|a| a.is_ipv4() == local_addr.is_ipv4())
+                    .or(addrs.first())
+                    .copied()
+                    .ok_or_else(|| {
+                        io::Error::new(
+                            io::ErrorKind::InvalidInput,
+                            "could not resolve to any address",
+                        )
+                    })?;
                 socket.send_to(&datagram_frame.data, target).await?;
             }
             // Check if the timeout has expired
